@@ -765,14 +765,27 @@ func genCliCase(r *lib.Rng) (*cliCase, string) {
 // runTailmacCli: clients with authentication whose one or two responses are the real listener's
 // answer with a forged response spliced in front of its L4 part (kind cli.tailmac)
 func (d *drv) runTailmacCli(r *lib.Rng, n int) {
+	jobs := make(chan *cliCase)
+	var wg sync.WaitGroup
+	for w := 0; w < 12; w++ { // a client whose response is refused waits for its deadline: several at once
+		wg.Add(1)
+		go func(sender int) {
+			defer wg.Done()
+			for cc := range jobs {
+				d.runCli("cli.tailmac", "nt,client-auth,relayed,spliced-l4", cc, sender)
+			}
+		}(w % nSenders)
+	}
 	for i := 0; i < n && !d.lost; i++ {
 		cc := &cliCase{auth: true, seed: r.U64() >> 1}
 		cc.scripts = [][]item{{{base: 2}}}
 		if r.Bool() {
 			cc.scripts = [][]item{{{base: 2}}, {{base: 1}, {base: 2}}}
 		}
-		d.runCli("cli.tailmac", "nt,client-auth,relayed,spliced-l4", cc, r.Intn(nSenders))
+		jobs <- cc
 	}
+	close(jobs)
+	wg.Wait()
 }
 
 func (d *drv) replayCli(kind, tags, args string) {
